@@ -35,7 +35,8 @@ of resolved attachments).
 Added in round 7 (restart = further rounds of `Server.run` on the same `Server` object): `restart_same_configuration`
 (a round of a node without Pinatas hands `srv.module_cfg` to the next round exactly as it was loaded), hence
 `restart_round_like_first` (every round of such a node is the first round: same log, same state — so every theorem of
-this file holds for every round); `restart_rounds_statement` (nodes with Pinatas, whose products are entries of
+this file holds for every round); `restart_rounds_partial` (every configuration: declared modules stay declared by
+name); `restart_rounds_statement` (nodes with Pinatas, whose products are entries of
 `module_cfg` from the second round on) is kept as a statement, with a checked instance.
 -/
 namespace Frappy.Proofs.C15
@@ -836,6 +837,15 @@ def restart_rounds_statement : Prop :=
   ∀ (cfg : Cfg) (k : Nat) (io : List (String × Name)),
     (∀ d ∈ cfg.dyn, d.cls ≠ Cls.pinata) → ((cfg.mods ++ cfg.dyn).map (·.name)).Nodup →
     ∀ n, n ∈ names (allMods (roundCfg cfg k) io) ↔ n ∈ names (allMods cfg io)
+
+/-- the part of `restart_rounds_statement` that is proved, for **every** configuration (Pinatas, failing hooks, rejected
+modules included) and every round: a declared module is still declared, under its name, in the `module_cfg` the round
+starts from, and what the Pinatas can produce is the same.  Missing for the statement: the description found under the
+name is the loaded one (a product of a Pinata with the name of a declared module whose creation failed replaces it:
+`module_cfg[modname] = options`), and the products are declared once. -/
+theorem restart_rounds_partial (cfg : Cfg) (k : Nat) :
+    (∀ c ∈ cfg.mods, ∃ d ∈ (roundCfg cfg k).mods, d.name = c.name) ∧ (roundCfg cfg k).dyn = cfg.dyn :=
+  ⟨roundCfg_keeps_declared cfg k, roundCfg_dyn cfg k⟩
 
 /-- non-vacuity of `restart_same_configuration` / `restart_round_like_first`: a node with a communicator made from a
 `uri`, used by its creator inside `initModule`, and a module declared first that is attached to the creator -/
